@@ -50,14 +50,25 @@ Definition opt_veqb (a b : option value) : bool :=
 Definition regs_match (r : regs) (ks : list string) (st : store) : bool :=
   forallb (fun k => opt_veqb (r k) (lookup k st)) ks.
 
-Definition is_panic {A} (r : res A) : bool := match r with Panic => true | _ => false end.
-
 Definition spec_query (data : value) (prev : vars) (q : query stmt) (rows : list row)
                       (o : res (list value)) (ost : vars) : bool :=
   match prev with
   | None =>
-      (* no map: nothing to remember; the only claim is that nothing escapes *)
-      (negb (is_panic o) && store_eqb ost None)%bool
+      (* no map: every register reads as NULL and nothing can be remembered: a query whose history
+         reaches a write (or is cut short) fails, never with an escaping panic; any other query
+         returns the rows assembled from all-NULL reads *)
+      match exec_where data None (q_where q) rows with
+      | Ok kept =>
+          let h := query_history data (q_items q) kept in
+          let '(rs, _, ab) := run_reg (abs []) h in
+          (store_eqb ost None &&
+           (if (ab || negb (Nat.eqb (List.length (writes (abs []) h)) 0))%bool then is_err o
+            else match o with
+                 | Ok got => rows_eqb (fst (assemble data (q_items q) kept rs)) got
+                 | _ => false
+                 end))%bool
+      | _ => (is_err o && store_eqb ost None)%bool
+      end
   | Some st =>
       match exec_where data prev (q_where q) rows with
       | Ok kept =>
